@@ -271,6 +271,9 @@ def lower(v, ex=None):
             return v.ident
         return Val.v_exc(z3.IntVal(smt.cls_code(v.cls)),
                          Val.v_tup(smt.mk_list([lower(x, ex) for x in v.args])))
+    if isinstance(v, VBound):
+        fn = v.func.fi.qualname if isinstance(v.func, VFunc) else getattr(v.func, 'name', '?')
+        return Val.v_tup(smt.mk_list([Val.v_str(z3.IntVal(smt.str_code('<bound ' + fn + '>'))), lower(v.self_v, ex)]))
     if isinstance(v, (VFunc, VBound, VModel, VClass, VExcClass, VExt)):
         # callables / classes as opaque constants
         name = getattr(v, 'name', None) or (v.fi.qualname if isinstance(v, VFunc) else None) \
